@@ -45,6 +45,24 @@ where
     KeyText::<V, K>::from_raw_bytes(b).try_into().expect("material key parses")
 }
 
+/// the reduced build's verdict on every offered key must be the full build's
+fn offers<K: paseto_core::key::KeyType>(m: &Value, field: &str, op: &str)
+where
+    V: paseto_core::key::HasKey<K>,
+{
+    let mut same = true;
+    let mut n = 0;
+    for o in m[field].as_array().unwrap() {
+        let b = hex::decode(o["hex"].as_str().unwrap()).unwrap();
+        let ok = Key::<V, K>::try_from(KeyText::<V, K>::from_raw_bytes(&b)).is_ok();
+        if ok != o["ok"].as_bool().unwrap() {
+            same = false;
+        }
+        n += 1;
+    }
+    println!("{}", json!({"op": op, "same": same, "offers": n}));
+}
+
 fn main() {
     let args: Vec<String> = std::env::args().collect();
     let all: Value = serde_json::from_str(&std::fs::read_to_string(&args[1]).unwrap()).unwrap();
@@ -61,12 +79,14 @@ fn main() {
         let r = SealedToken::<V, Public, Raw, Vec<u8>>::from_str(s(m, "token_public_bad")).and_then(|t| t.unseal(&pk, &aad, &nv()));
         out("verify-rejects-forgery", r.is_err());
         out("public-key-text", pk.to_string() == s(m, "public_key_text"));
+        offers::<Public>(m, "offers_public", "key-offers-public");
     }
     #[cfg(feature = "signing")]
     {
         use paseto_core::tokens::{SealedToken, UnsealedToken};
         let sk: Key<V, Secret> = key(&h(m, "secret_key"));
         out("public-key-of-secret", sk.public_key().to_string() == s(m, "public_key_text"));
+        offers::<Secret>(m, "offers_secret", "key-offers-secret");
         let t = UnsealedToken::<V, Public, Raw>::new(Raw(h(m, "claims"))).with_footer(h(m, "footer")).seal(&sk, &aad).map(|t| t.to_string());
         match t {
             Ok(t) => {
@@ -88,6 +108,7 @@ fn main() {
         out("decrypt", r.map(|u| u.claims.0 == h(m, "claims") && u.footer == h(m, "footer")).unwrap_or(false));
         let r = SealedToken::<V, Local, Raw, Vec<u8>>::from_str(s(m, "token_local_bad")).and_then(|t| t.unseal(&lk, &aad, &nv()));
         out("decrypt-rejects-forgery", r.is_err());
+        offers::<Local>(m, "offers_local", "key-offers-local");
     }
     #[cfg(feature = "encrypting")]
     {
